@@ -414,4 +414,23 @@ def make_stubs(world):
         return ok(st, o)
     S.fields['location'] = ['$Location']
 
+
+    # ------------------------------------------------------------------ check registries (reflected)
+    from pyvc.state import SDict, SClass
+
+    def _registry(eng):
+        import importlib
+        m = importlib.import_module('oslo_policy._checks')
+        importlib.import_module('oslo_policy.policy')
+        return SDict({k: SClass(v.__name__) for k, v in m.registered_checks.items() if v.__name__ in eng.w.classes})
+    S.statics['_checks.registered_checks'] = _registry
+
+    def _extensions(eng, st, pos, kw):
+        import importlib
+        m = importlib.import_module('oslo_policy._checks')
+        ext = m.get_extensions()
+        return ok(st, SDict({k: SClass(v.__name__) for k, v in ext.items() if v.__name__ in eng.w.classes}))
+    S.quals['_checks:get_extensions'] = _extensions
+    S.docs['_checks:get_extensions'] = 'stevedore extension checks, reflected from the imported module (http, https)'
+
     return S
